@@ -156,6 +156,53 @@ def build(tier="quick", seed=0):
     pack.add(Obligation("C02.read.stream[several streams one behind the other: a header frame in front of each]", lambda tier: prove_paths("C02.read.stream[several streams one behind the other: a header frame in front of each]", th_reader_concat,
                         lambda p: (p.value == ([("c02_rec", 7), ("c02_rec", 8), ("c02_rec", 9)], "stop"), f"three conforming streams holding records 7, 8, 9 were read as {p.value!r}")), replay=lambda w: {"call": "c02_concat", "args": {}}, functions=FU))
 
+    # ---- a record holding records (record, record[] with element types new to the stream): every frame of the written stream is a frame of the format and the
+    #      definition of each type - nested ones included - precedes the first record frame that names it (what an independent decoder needs)
+    def th_stream_nested():
+        def plain(t):
+            return it.unbase(t[1]) if t[0] == "leaf" else [plain(e) for e in t[1]] if t[0] == "arr" else t
+
+        def ids_in(t, acc):
+            if t[0] == "ext" and t[1] == 14 and isinstance(t[2], MPBytes):
+                inner = t[2].tree[1]
+                if plain(inner[0]) == 1:
+                    acc.append(tuple(plain(inner[1][1][0])))
+                    for v in inner[1][1][1][1]:
+                        ids_in(v, acc)
+            elif t[0] == "arr":
+                for e in t[1]:
+                    ids_in(e, acc)
+
+        A = it.call(RD, ["c02/in_a", [("varint", "n")]], {})
+        B = it.call(RD, ["c02/in_b", [("string", "s")]], {})
+        C = it.call(RD, ["c02/in_c", [("varint", "k")]], {})
+        N = it.call(RD, ["c02/holder", [("record", "one"), ("record[]", "many"), ("varint", "k")]], {})
+        inner_holder = it.call(N, [], {"one": None, "many": [it.call(C, [], {"k": 3})], "k": 2})
+        n = it.call(N, [], {"one": it.call(A, [], {"n": SInt(x)}), "many": [it.call(B, [], {"s": "v"}), inner_holder], "k": 1})
+        fp = AbsFile(it, mode="wb")
+        w = it.call(st.g["RecordStreamWriter"], [fp], {})
+        it.call(it.getattr_(w, "write"), [n], {})
+        known, problems = set(), []
+        for body in fp.content()[3::2]:
+            t = getattr(body, "tree", None)
+            if t is None or t[0] != "ext" or t[1] != 14 or not isinstance(t[2], MPBytes):
+                problems.append(f"not a frame of the format: {body!r}")
+                continue
+            inner = t[2].tree[1]
+            if plain(inner[0]) == 2:
+                nm_, fields_ = plain(inner[1][1][0]), tuple(tuple(f) for f in plain(inner[1][1][1]))
+                known.add((nm_, W.descriptor_hash(nm_, fields_)))
+            else:
+                acc = []
+                ids_in(t, acc)
+                problems += [f"record frame names the type {i_!r} before its definition" for i_ in acc if i_ not in known]
+                if len(set(acc)) != 4:
+                    problems.append(f"the record frame names the types {acc!r}: holder and three nested types expected")
+        return problems
+
+    pack.add(Obligation("C02.frame[record holding records: record, record[] and a holder inside a list, element types new to the stream]", lambda tier: prove_paths("C02.frame[nested]", th_stream_nested, lambda p: (p.value == [], f"{p.value[:2]!r}") if p.kind != "raise" else (exc_name(p) in ("error",), f"raised {exc_text(p)}"), lambda m_, p: {}, allow_raise=None),
+                        replay=lambda w: {"call": "c02_nested_stream", "args": {}}, functions=FU))
+
     # ---------------------------------------------------------------- envelopes: writer against the format
     def th_pack_record(rng, inr):
         def th():
@@ -194,6 +241,46 @@ def build(tier="quick", seed=0):
         name = f"C02.pack[record, {nm}]"
         pack.add(Obligation(name, lambda tier, name=name, rng=rng, inr=inr: prove_paths(name, th_pack_record(rng, inr), judge_tree, lambda m_, p: {"x": model_value(m_, x), "s": model_value(m_, sv)}, allow_raise=None),
                             replay=lambda w: {"call": "c02_reference_decode", "args": {"x": w.get("x") if isinstance(w.get("x"), int) else 0, "s": w.get("s") if isinstance(w.get("s"), str) else ""}}, functions=FU))
+
+    # ---- field values with a structured or numeric wire form, against the format as published (frozen): addresses are INTEGERS (native msgpack integer, or
+    #      the big-integer envelope from 2**64 on), networks / URIs text, paths [text, flavour], digests three binary values, commands [executable, arguments]
+    from pyvc.models.ip import SymIP
+
+    def th_pack_ip(fam, lo, hi, inr):
+        def th():
+            it.assume(z3.And(x >= lo, x < hi))
+            D = it.call(RD, ["c02/ip", [("net.ipaddress", "a")]], {})
+            r = it.call(D, [], {"a": SymIP(fam, SInt(x)), "_generated": GEN})
+            got = pack_with_fresh_packer(it, pk, r)
+            name, h = ident(D)
+            want = W.record_tree(blob, name, h, [int_value_tree(x) if inr else big_tree(x), W.leaf(None), W.leaf(None), dt_tree(GEN), W.leaf(1)])
+            return got.tree, want
+        return th
+
+    for label, fam, lo, hi, inr in (("any IPv4 address", 4, 0, 2 ** 32, True), ("any IPv6 address below 2**64", 6, 0, 2 ** 64, True), ("any IPv6 address from 2**64 on", 6, 2 ** 64, 2 ** 128, False)):
+        name = f"C02.pack[value of net.ipaddress, {label}: the integer value]"
+        pack.add(Obligation(name, lambda tier, name=name, fam=fam, lo=lo, hi=hi, inr=inr: prove_paths(name, th_pack_ip(fam, lo, hi, inr), judge_tree, lambda m_, p: {"x": model_value(m_, x)}, allow_raise=None),
+                            replay=lambda w, fam=fam: {"call": "c02_value_form", "args": {"ftype": "net.ipaddress", "src": f"IP{fam}({int(w.get('x') or 0)})"}}, functions=FU + ("flow.record.fieldtypes.net.ip:ipaddress._pack",)))
+
+    VALUE_FORMS = {
+        "net.ipnetwork": ("'10.0.0.0/8'", lambda: W.leaf("10.0.0.0/8")), "net.ipnetwork ": ("'2001:db8::/32'", lambda: W.leaf("2001:db8::/32")), "uri": ("'http://h/p?q#f'", lambda: W.leaf("http://h/p?q#f")),
+        "path": ("'/a/b'", lambda: W.arr(W.leaf("/a/b"), W.leaf(0))), "path ": ("__import__('pathlib').PureWindowsPath('c:/x/y')", lambda: W.arr(W.leaf("c:\\x\\y"), W.leaf(1))),
+        "digest": ("('d41d8cd98f00b204e9800998ecf8427e', None, None)", lambda: W.arr(W.leaf(bytes.fromhex("d41d8cd98f00b204e9800998ecf8427e")), W.leaf(None), W.leaf(None))),
+        "command": ("'ls -l /tmp'", lambda: W.arr(W.arr(W.leaf("ls"), W.arr(W.leaf("-l"), W.leaf("/tmp"))), W.leaf(0))),
+        "boolean": ("True", lambda: W.leaf(True)), "float": ("1.5", lambda: W.leaf(1.5)), "uint16": ("443", lambda: W.leaf(443)), "filesize": ("2**40", lambda: W.leaf(2 ** 40)),
+    }
+    for tkey, (src, want_fn) in VALUE_FORMS.items():
+        t = tkey.strip()
+        name = f"C02.pack[value of {t}, {src}]"
+
+        def th(t=t, src=src, want_fn=want_fn):
+            D = it.call(RD, ["c02/val", [(t, "a")]], {})
+            r = it.call(D, [], {"a": eval(src), "_generated": GEN})
+            got = pack_with_fresh_packer(it, pk, r)
+            name_, h = ident(D)
+            return got.tree, W.record_tree(blob, name_, h, [want_fn(), W.leaf(None), W.leaf(None), dt_tree(GEN), W.leaf(1)])
+
+        pack.add(Obligation(name, lambda tier, name=name, th=th: prove_paths(name, th, judge_tree, lambda m_, p: {}, allow_raise=None), replay=lambda w, t=t, src=src: {"call": "c02_value_form", "args": {"ftype": t, "src": src}}, functions=FU, mode="representative value"))
 
     def th_pack_descriptor():
         D = it.call(RD, ["c02/rec", list(FIELDS)], {})
